@@ -95,12 +95,15 @@ def c08_models(tier, null="in_space"):
     modes = [(False, -1)] if tier == "quick" else [(False, -1), (True, -1)]
     ms = [env_model("fifo", G[:n], cs, range(1, n + 1), 2 if tier == "quick" else 3, [0, L], [FOLD_ALL], modes,
                     delays=(0, 1, 2), spaces=("box", "discrete"), maxcalls=n, reset_anywhere=False,
-                    invariants=C08_INV, trade=True, null=null)]
+                    invariants=C08_INV, trade=True, null=null, reuse=True)]
     # repeated / abandoned episodes on one environment: the queue of delayed decisions starts afresh at every reset
     ms.append(env_model("fifo-resets", G[:n], bar_candidates(n, extras=False) + [cand(G[0] + 10, "q", "A", 90, 91),
                                                                                  cand(G[1] + L, "q", "A", 92, 93)],
                         range(1, n + 1), 2, [L], [FOLD_ALL], [(False, -1)], delays=(1, 2), spaces=("box",),
                         maxcalls=n + 2, reset_anywhere=True, invariants=C08_INV, trade=True, null=null))
+    # sub-second stamps around the latency bound, with trading
+    sub = subsecond_model(tier, C08_INV, name="fifo-subsecond")
+    ms.append(sub)
     return ms
 
 
